@@ -1017,6 +1017,149 @@ def check_lean_specs(rep: Report, rng: Rng):
 
 # ------------------------------------------------------------------ entry points
 
+# ------------------------------------------------------------------ kernel stream (generated terms vs the real kernels)
+# (T) harness/translators/kernels.py translates click_through_rate / weighted_calibration (update + compute), hit_rate,
+# reciprocal_rank, frequency_at_k and num_collisions from their source into terms of TE/Model/TExpr.lean (TE/Gen/KernelsRank.lean,
+# regenerated here); TE/Props/C08_Kernels.lean proves the generated terms equal to the models of TE/Model/Rank.lean; this stream runs
+# the generated terms against the REAL functions.
+
+KERNEL_MODULES = {"ranking/click_through_rate": "torcheval.metrics.functional.ranking.click_through_rate",
+                  "ranking/weighted_calibration": "torcheval.metrics.functional.ranking.weighted_calibration",
+                  "ranking/hit_rate": "torcheval.metrics.functional.ranking.hit_rate",
+                  "ranking/reciprocal_rank": "torcheval.metrics.functional.ranking.reciprocal_rank",
+                  "ranking/frequency": "torcheval.metrics.functional.ranking.frequency",
+                  "ranking/num_collisions": "torcheval.metrics.functional.ranking.num_collisions"}
+
+
+def translate(rep: Report):
+    """(T) regenerate lean/TE/Gen/KernelsRank.lean from the kernels' source (TE.Props.C08_Kernels is proved about it)"""
+    from ..translators import kernels
+    from ..common import LEAN
+    rows = kernels.generate(rep, family="C08")
+    props = (LEAN / "TE" / "Props" / "C08_Kernels.lean").read_text()
+    for r in rows:
+        if r["term"] is not None and f"Gen.Rank.k_{r['id']}" not in props.replace(f"Gen.Rank.k_{r['id']}_", ""):
+            rep.broke(f"kernels:{r['id']}", f"kernel {r['func']} is translated but no theorem of TE/Props/C08_Kernels.lean is about Gen.Rank.k_{r['id']}", {})
+
+
+def kenc(v) -> str:
+    """typed argument syntax of the `gen.<kernel>` requests (TE/Driver/Kernels.lean)"""
+    if isinstance(v, torch.Tensor):
+        return enc_tensor(v)
+    if v is None:
+        return "none"
+    if isinstance(v, bool):
+        return "b.true" if v else "b.false"
+    if isinstance(v, int):
+        return f"i.{v}"
+    if isinstance(v, float):
+        return "q." + fq(v)
+    if isinstance(v, str):
+        return "s." + v
+    raise TypeError(f"kernel argument {v!r}")
+
+
+def kernel_rows():
+    from ..translators import kernels
+    rows = {r["id"]: r for r in kernels.facts(family="C08")}
+    for r in rows.values():
+        if "fn" not in r:
+            try:
+                mod = importlib.import_module(KERNEL_MODULES[r["module"]])
+                r["fn"] = getattr(mod, r["func"], None)
+                r["check"] = next((getattr(mod, n) for n in dir(mod) if n.endswith("_input_check")), None)
+            except Exception:  # noqa: BLE001
+                r["fn"] = r["check"] = None
+    return rows
+
+
+def kernel_calls(rows, js):
+    """the kernel calls behind one functional case description: [(kernel id, request arguments, real outcome)]"""
+    out = []
+
+    def usable(kid):
+        r = rows.get(kid)
+        return r is not None and r["term"] is not None and r.get("fn") is not None
+
+    def rejected(kid, *a, **kw):
+        """the kernel's `_input_check` (skipped by the translation, C18) rejects the arguments"""
+        chk = rows[kid].get("check")
+        if chk is None:
+            return False
+        try:
+            chk(*a, **kw)
+        except (ValueError, TypeError):
+            return True
+        except Exception:  # noqa: BLE001
+            return False
+        return False
+
+    form = js["form"]
+    if form == "rank" and usable(js["fn"]):
+        x, y, k = _tensor(js["input"]), _tensor(js["target"]), js["k"]
+        if not rejected(js["fn"], x, y, k) if js["fn"] == "hit_rate" else not rejected(js["fn"], x, y):
+            out.append((js["fn"], {"input": x, "target": y, "k": k}, call_real(rows[js["fn"]]["fn"], x, y, k=k)))
+    elif form == "ctr" and usable("click_through_rate_update"):
+        x, w, nt = _tensor(js["input"]), wj(js["weights"]), js["num_tasks"]
+        w = 1.0 if w is None else w
+        if not rejected("click_through_rate_update", x, w, num_tasks=nt):
+            real = call_real(rows["click_through_rate_update"]["fn"], x, w, num_tasks=nt)
+            out.append(("click_through_rate_update", {"input": x, "weights": w, "num_tasks": nt}, real))
+            if real[0] == "ok" and usable("click_through_rate_compute"):
+                c, t = real[1]
+                out.append(("click_through_rate_compute", {"click_total": c, "weight_total": t, "finfo.tiny": float(torch.finfo(t.dtype).tiny)},
+                            call_real(rows["click_through_rate_compute"]["fn"], c, t)))
+    elif form == "wc" and usable("weighted_calibration_update"):
+        p_, l_, w = _tensor(js["input"]), _tensor(js["target"]), wj(js.get("weight"))
+        w = 1.0 if w is None else w
+        nt = js.get("num_tasks", 1)
+        if not rejected("weighted_calibration_update", p_, l_, w, num_tasks=nt):
+            a = {"input": p_, "target": l_, "weight": w, "num_tasks": nt}
+            out.append(("weighted_calibration_update", a, call_real(rows["weighted_calibration_update"]["fn"], p_, l_, w, num_tasks=nt)))
+            if usable("weighted_calibration_compute"):
+                out.append(("weighted_calibration_compute", a, call_real(rows["weighted_calibration_compute"]["fn"], p_, l_, w, num_tasks=nt)))
+    elif form == "collisions" and usable("num_collisions"):
+        xi = _tensor(js["input"])
+        if not rejected("num_collisions", xi):
+            out.append(("num_collisions", {"input": xi}, call_real(rows["num_collisions"]["fn"], xi)))
+    elif form == "frequency" and usable("frequency_at_k"):
+        xf, k = _tensor(js["input"]), js["k"]
+        if not rejected("frequency_at_k", xf, k):
+            out.append(("frequency_at_k", {"input": xf, "k": float(k)}, call_real(rows["frequency_at_k"]["fn"], xf, k)))
+    return out
+
+
+def kernel_stream(rep: Report, rng: Rng):
+    """the GENERATED term of every translated kernel (request `gen.<kernel>`) against the REAL function on the same arguments
+    (every case of the rank / ctr / wc / collisions / frequency generators).  A disagreement is a broken correspondence between
+    the source and its translation (`kernels:<name>`), never a violation by itself."""
+    rows = kernel_rows()
+    calls = []
+    for gen in (rank_cases, misc_cases):
+        for _fn, _thunk, _req, _exp, _tol, _tag, js in gen(rng, rep.tier):
+            if js.get("form") in ("rank", "ctr", "wc", "collisions", "frequency"):
+                calls += kernel_calls(rows, js)
+    lines = [f"fn gen.{kid} " + " ".join(f"{k}={kenc(v)}" for k, v in a.items()) for kid, a, _ in calls]
+    outs = run_driver(lines)
+    nbad = {}
+    for (kid, a, real), line, o in zip(calls, lines, outs):
+        rep.count(f"kernel-stream:{kid}")
+        if real[0] == "err":
+            rep.count(f"kernel-stream:err:{real[1]}")
+        rep.case(nontrivial_key=("kernel", line), sample={"request": line[:300], "model": o[:200]} if rep.dist.get(f"kernel-stream:{kid}") == 1 else None)
+        rep.traces += 1
+        msg = outcomes_agree(real, dec_out(o), strict_kind=True)
+        if msg is None:
+            continue
+        nbad[kid] = nbad.get(kid, 0) + 1
+        if nbad[kid] <= 3:
+            rep.broke(f"kernels:{kid}", f"the term generated from the source of {rows[kid]['module']}.{rows[kid]['func']} and the real function disagree ({msg}) "
+                      f"on {line[:400]}", {"kind": "kernel", "kernel": kid, "request": line, "generated": o,
+                                           "real": real[1] if real[0] == "err" else [t.tolist() for t in real[1]]})
+    untr = [k for k, r in rows.items() if r["term"] is None]
+    rep.streams["kernels"] = {"cases": len(calls), "disagreements": sum(nbad.values()), "untranslated": untr}
+
+
 def run(rep: Report):
     rng = Rng(rep.seed * 1000003 + 8)
     from .. import opscheck; opscheck.check_ops(rep, ["rank"])
@@ -1025,6 +1168,7 @@ def run(rep: Report):
     check_retrieval_classes(rep, rng, 3000 if rep.tier == "thorough" else 400)
     check_simple_classes(rep, rng, rep.tier)
     check_lean_specs(rep, rng)
+    kernel_stream(rep, Rng(rep.seed * 1000003 + 888))
 
 
 def search(rep: Report):
